@@ -47,6 +47,9 @@ NAMES = ["a.c", "dir/b.c", "x_y-z.h", "/abs/p.c", "f1.i", "../up.c", "n.0", "a",
          # characters that are special to printf, and names longer than any fixed buffer
          "my%20file.c", "50%done.c", "%s%s%n.c", "100%", "%", "a%lu%zu.h", "L" + "o" * 600 + "ng.c", "d" * 300 + "/" + "e" * 300 + ".h"]
 
+# token spellings after which scankind() has read (or must read) ahead before it can decide
+LINE_ENDS = ["..", ".", "...", " ..", "x..", "1..", "-", "+", "&", "|", "<", ">", "<<", ">>", "=", "!", "*", "/", "%", "^", "->", "- -", "L", "u", "u8", "U", "1e+", "1.", "0x",
+             "'a'", "\"s\"", "L'a'", "u8\"s\"", "a", "1", "<:", "%:", ". .", "....", "..+", "/ /", "/ *", "* /"]
 
 @st.composite
 def decorated(draw):
@@ -74,7 +77,17 @@ def decorated(draw):
         labels.add("splice-run-after-directive")
 
     def decorate(block):
-        d = draw(st.integers(0, 12))
+        d = draw(st.integers(0, 13))
+        if d == 13:
+            # a line whose last token leaves the scanner in a lookahead state when it meets the newline (an unused macro's
+            # replacement list or a #pragma, so any token sequence is valid there)
+            end = draw(st.sampled_from(LINE_ENDS))
+            lines.append(draw(st.sampled_from(["#define ZEND%d to be continued%s", "#pragma zend%d x %s", "#define ZEND%d(a) a %s", "#define ZEND%d %s"])) % (uid(), end))
+            if draw(st.integers(0, 3)) == 0:
+                lines[-1] += "\\"
+                lines.append("")
+            labels.add("lookahead-at-line-end")
+            return
         if d == 12:
             for _ in range(draw(st.integers(1, 3))):
                 lines.append("\\")
